@@ -1,6 +1,8 @@
 (* RunC14.v -- runner for C14 (content streams).
    (enc (ops (op xOP operand ...) ...))  ->  (res xENCODED <dec>)
    (dec xBYTES)                          ->  (res2 <dec1> xREENCODED <dec2>)   (re-encode only when dec1 is ok)
+   (decv xBYTES K)                       ->  as dec (K = number of operations the producer wrote; used by the harness only)
+   (real xTEXT)                          ->  (real <is a source real: the real parser takes the whole text> <it overflows f32>)
    <dec> ::= (ops (op xOP operand ...) ...) | err | panic | out *)
 From LV Require Import Base.Bytes Base.Sx Model.Obj Model.Writer Model.Parser.
 
@@ -26,6 +28,20 @@ Definition dec_to_sx (r : decode_res) : sx :=
   | DecOut => sx_id "out"
   end.
 
+Definition run_dec (b : bytes) : sx :=
+  let d1 := decode_content b in
+  match d1 with
+  | DecOk ops => let e := encode_content ops in
+                 SL [sx_id "res2"; dec_to_sx d1; sx_bytes e; dec_to_sx (decode_content e)]
+  | _ => SL [sx_id "res2"; dec_to_sx d1]
+  end.
+
+Definition run_real (t : bytes) : sx :=
+  match real t with
+  | POk _ [] => SL [sx_id "real"; sx_bool true; sx_bool (real_overflow t)]
+  | _ => SL [sx_id "real"; sx_bool false; sx_bool false]
+  end.
+
 Definition run (x : sx) : sx :=
   match x with
   | SL (t :: SL (_ :: ops) :: _) =>
@@ -37,16 +53,13 @@ Definition run (x : sx) : sx :=
     else sx_id "badcase"
   | SL [t; b] =>
     if is_id t "dec" then
-      match as_bytes b with
-      | Some b =>
-        let d1 := decode_content b in
-        match d1 with
-        | DecOk ops => let e := encode_content ops in
-                       SL [sx_id "res2"; dec_to_sx d1; sx_bytes e; dec_to_sx (decode_content e)]
-        | _ => SL [sx_id "res2"; dec_to_sx d1]
-        end
-      | None => sx_id "badcase"
-      end
+      match as_bytes b with Some b => run_dec b | None => sx_id "badcase" end
+    else if is_id t "real" then
+      match as_bytes b with Some b => run_real b | None => sx_id "badcase" end
+    else sx_id "badcase"
+  | SL [t; b; _] =>
+    if is_id t "decv" then
+      match as_bytes b with Some b => run_dec b | None => sx_id "badcase" end
     else sx_id "badcase"
   | _ => sx_id "badcase"
   end.
